@@ -92,16 +92,25 @@
 ; ---- Merkle authentication-path fold (RFC 8391 Algorithm 13 with the library's address convention: the parent at
 ; height j+1 is hashed with tree-height word j and tree-index word idx >> (j+1)) ----
 (declare-fun shrn (Int Int) Int)
+;@ needs shrn
 (assert (forall ((x Int)) (! (= (shrn x 0) x) :pattern ((shrn x 0)))))
+;@ needs shrn
 (assert (forall ((x Int) (i Int)) (! (=> (>= i 0) (= (shrn x (+ i 1)) (div (shrn x i) 2))) :pattern ((shrn x (+ i 1))))))
 ; randHash(hf, PS, AD, X): H with key/masks derived from address AD (keyAndMask word 7 = 0, 1, 2) over the 64-byte X
-(define-fun randHash ((hf Int) (PS (Array Int Int)) (AD (Array Int Int)) (X (Array Int Int))) (Array Int Int)
-  (hashArr hf (corein 1 (prfArr hf PS (addrBytes (store AD 7 0))) 32
+(declare-fun randHash (Int (Array Int Int) (Array Int Int) (Array Int Int)) (Array Int Int))
+;@ needs randHash
+;@ defines randHash
+(assert (forall ((hf Int) (PS (Array Int Int)) (AD (Array Int Int)) (X (Array Int Int)))
+  (! (= (randHash hf PS AD X)
+        (hashArr hf (corein 1 (prfArr hf PS (addrBytes (store AD 7 0))) 32
                       (xorArr X (cat (prfArr hf PS (addrBytes (store AD 7 1))) 32 (prfArr hf PS (addrBytes (store AD 7 2))) 32) 64) 64) 128 32))
+     :pattern ((randHash hf PS AD X)))))
 ; fold(hf, PS, A, L, idx, AU, ao, j): the node at height j on the path of leaf idx: L at height 0; auth node j is AU[ao+32j ..)
 (declare-fun fold (Int (Array Int Int) (Array Int Int) (Array Int Int) Int (Array Int Int) Int Int) (Array Int Int))
+;@ needs fold
 (assert (forall ((hf Int) (PS (Array Int Int)) (A (Array Int Int)) (L (Array Int Int)) (idx Int) (AU (Array Int Int)) (ao Int))
   (! (= (fold hf PS A L idx AU ao 0) L) :pattern ((fold hf PS A L idx AU ao 0)))))
+;@ needs fold
 (assert (forall ((hf Int) (PS (Array Int Int)) (A (Array Int Int)) (L (Array Int Int)) (idx Int) (AU (Array Int Int)) (ao Int) (j Int))
   (! (=> (>= j 0)
          (= (fold hf PS A L idx AU ao (+ j 1))
@@ -110,3 +119,17 @@
                            (cat (sub AU (+ ao (* 32 j)) 32) 32 (fold hf PS A L idx AU ao j) 32)
                            (cat (fold hf PS A L idx AU ao j) 32 (sub AU (+ ao (* 32 j)) 32) 32)))))
      :pattern ((fold hf PS A L idx AU ao (+ j 1))))))
+; foldTop = fold, with one unfolding step available at any height j > 0 (the trigger of the step axiom above needs a
+; term of the form j+1; foldTop gives the same unfolding for a height written as a plain variable)
+(declare-fun foldTop (Int (Array Int Int) (Array Int Int) (Array Int Int) Int (Array Int Int) Int Int) (Array Int Int))
+;@ needs foldTop
+(assert (forall ((hf Int) (PS (Array Int Int)) (A (Array Int Int)) (L (Array Int Int)) (idx Int) (AU (Array Int Int)) (ao Int) (j Int))
+  (! (and (= (foldTop hf PS A L idx AU ao j) (fold hf PS A L idx AU ao j))
+          (=> (> j 0) (= (shrn idx j) (div (shrn idx (- j 1)) 2)))
+          (=> (> j 0)
+              (= (fold hf PS A L idx AU ao j)
+                 (randHash hf PS (store (store A 5 (- j 1)) 6 (shrn idx j))
+                      (ite (= (mod (shrn idx (- j 1)) 2) 1)
+                           (cat (sub AU (+ ao (* 32 (- j 1))) 32) 32 (fold hf PS A L idx AU ao (- j 1)) 32)
+                           (cat (fold hf PS A L idx AU ao (- j 1)) 32 (sub AU (+ ao (* 32 (- j 1))) 32) 32))))))
+     :pattern ((foldTop hf PS A L idx AU ao j)))))
